@@ -455,6 +455,9 @@ RULE = ("handler layouts {none, wildcard, scoped(owner), scoped(other), scoped(o
 from vmc.tables import _ROUND6 as _R6  # noqa: E402
 
 RULE += _R6["C08"]
+from vmc.tables import _ROUND8 as _R8  # noqa: E402
+
+RULE += _R8["C08"]
 
 
 
